@@ -269,6 +269,44 @@ func isVAbs(x iface) (structure, bool) {
 	return st, ok
 }
 
+// containsAbs reports whether an interpreted go/types value is or contains an
+// abstract type (vAbs) within pointer/slice/signature structure.
+func containsAbs(x iface, depth int) bool {
+	if x.t == nil || depth > 6 {
+		return false
+	}
+	if _, ok := isVAbs(x); ok {
+		return true
+	}
+	p, ok := x.v.(*value)
+	if !ok || p == nil {
+		return false
+	}
+	st, ok := (*p).(structure)
+	if !ok {
+		return false
+	}
+	switch namedOf(x.t) {
+	case "go/types.Pointer":
+		if b, ok := fieldByName(x.t, st, "base").(iface); ok {
+			return containsAbs(b, depth+1)
+		}
+	case "go/types.Slice":
+		if b, ok := fieldByName(x.t, st, "elem").(iface); ok {
+			return containsAbs(b, depth+1)
+		}
+	case "go/types.Signature":
+		for _, f := range []string{"params", "results"} {
+			for _, v := range tupleVars(fieldByName(x.t, st, f)) {
+				if containsAbs(varType(v), depth+1) {
+					return true
+				}
+			}
+		}
+	}
+	return false
+}
+
 func namedOf(t types.Type) string {
 	if p, ok := t.(*types.Pointer); ok {
 		if n, ok := p.Elem().(*types.Named); ok && n.Obj().Pkg() != nil {
@@ -491,12 +529,44 @@ func (ld *loaded) newError(fr *frame, text value) value {
 	return call(fr.i, fr, token.NoPos, fn, []value{text})
 }
 
+func registerAtomics(m map[string]intrinsic) {
+	for _, ty := range []string{"Int32", "Int64", "Uint32", "Uint64", "Uintptr", "Pointer"} {
+		m["sync/atomic.Load"+ty] = func(fr *frame, a []value) value { return *a[0].(*value) }
+		m["sync/atomic.Store"+ty] = func(fr *frame, a []value) value { *a[0].(*value) = a[1]; return nil }
+		m["sync/atomic.Swap"+ty] = func(fr *frame, a []value) value { p := a[0].(*value); old := *p; *p = a[1]; return old }
+		m["sync/atomic.CompareAndSwap"+ty] = func(fr *frame, a []value) value {
+			p := a[0].(*value)
+			if *p == a[1] {
+				*p = a[2]
+				return true
+			}
+			return false
+		}
+	}
+	for _, ty := range []string{"Int32", "Int64", "Uint32", "Uint64", "Uintptr"} {
+		m["sync/atomic.Add"+ty] = func(fr *frame, a []value) value {
+			p := a[0].(*value)
+			*p = binop(token.ADD, nil, *p, a[1])
+			return *p
+		}
+	}
+}
+
 func registerModels(ld *loaded) {
 	modelLd = ld
 	m := intrinsics
+	registerAtomics(m)
 	m["go/types.Identical"] = func(fr *frame, a []value) value {
 		px := fr.i.px
-		return fromTerm(px, identicalTerm(px, a[0].(iface), a[1].(iface)), types.Bool)
+		x, y := a[0].(iface), a[1].(iface)
+		if !containsAbs(x, 0) && !containsAbs(y, 0) {
+			// real go/types objects only: run the real comparer from its SSA
+			if fn := ld.prog.ImportedPackage("go/types").Func("Identical"); fn != nil && fn.Blocks != nil {
+				fr.i.skipIntrinsic = true
+				return call(fr.i, fr, token.NoPos, fn, a)
+			}
+		}
+		return fromTerm(px, identicalTerm(px, x, y), types.Bool)
 	}
 	m["go/types.TypeString"] = func(fr *frame, a []value) value {
 		return typeStringModel(fr.i.px, a[0].(iface))
@@ -929,3 +999,35 @@ func setupGlobals(ld *loaded, i *interpreter) {
 }
 
 var _ = ssa.NaiveForm
+
+
+// zeroResultFns: environment/debug hooks whose result is irrelevant to the
+// code under test; they return the zero value of their result type.
+var zeroResultFns = map[string]bool{
+	"internal/godebug.New":                         true,
+	"(*internal/godebug.Setting).Value":            true,
+	"(*internal/godebug.Setting).IncNonDefault":    true,
+	"(*internal/godebug.Setting).Name":             true,
+	"(*sync.Mutex).Lock":                           true,
+	"(*sync.Mutex).Unlock":                         true,
+	"(*sync.RWMutex).Lock":                         true,
+	"(*sync.RWMutex).Unlock":                       true,
+	"(*sync.RWMutex).RLock":                        true,
+	"(*sync.RWMutex).RUnlock":                      true,
+	"go/types.asGoVersion":                          true,
+}
+
+func zeroResults(fn *ssa.Function) value {
+	res := fn.Signature.Results()
+	switch res.Len() {
+	case 0:
+		return nil
+	case 1:
+		return zero(res.At(0).Type())
+	}
+	var t tuple
+	for i := 0; i < res.Len(); i++ {
+		t = append(t, zero(res.At(i).Type()))
+	}
+	return t
+}
